@@ -540,6 +540,9 @@ func checkSpliceShape(r *Reporter, p *Prog) {
 // checkListCore: handle validation, len/list bookkeeping and splice shapes of ds.list - the rules
 // every user of ds.List as a registry relies on (shared with C13: the subscriber lists of the
 // reactive types are ds.Lists whose handles are removed by the unsubscribe closures).
+// sentinelObj stands for the list's sentinel in originRoots.
+var sentinelObj types.Object = types.NewVar(token.NoPos, nil, "<sentinel>", types.Typ[types.Invalid])
+
 func checkListCore(r *Reporter, p *Prog) {
 	const pkg = "ds"
 	pk := p.Pkg(pkg)
@@ -576,7 +579,20 @@ func checkListCore(r *Reporter, p *Prog) {
 		recvName := recvIdentOf(fd).Name
 		typedOf := map[types.Object]types.Object{} // param -> typed variable
 		paramOfTyped := map[types.Object]types.Object{}
-		ast.Inspect(fd.Body, func(n ast.Node) bool {
+		// (searched on the method with its unexported helpers in place: an exported operation may only
+		// forward its handle to a shared body that asserts and validates it)
+		var allNodes []ast.Node
+		nodePt := map[ast.Node]Point{}
+		for _, b := range f.G.Blocks {
+			if !b.Live {
+				continue
+			}
+			for i, nd := range b.Nodes {
+				allNodes = append(allNodes, nd)
+				nodePt[nd] = Point{b, i}
+			}
+		}
+		visitTyped := func(n ast.Node) bool {
 			as, ok := n.(*ast.AssignStmt)
 			if !ok || len(as.Rhs) != 1 || len(as.Lhs) < 1 {
 				return true
@@ -602,6 +618,8 @@ func checkListCore(r *Reporter, p *Prog) {
 				for _, hp := range handleParams {
 					if hp == po {
 						isHandle = true
+					} else if pt, has := nodePt[n]; has && f.IsVar(src, pt, hp) {
+						isHandle, po = true, hp
 					}
 				}
 				if tv := objOfIdent(info, as.Lhs[0]); isHandle && tv != nil && shortTypeName(typeName(tv.Type())) == "listElement" {
@@ -610,7 +628,41 @@ func checkListCore(r *Reporter, p *Prog) {
 				}
 			}
 			return true
-		})
+		}
+		for _, nd := range allNodes {
+			if as, ok := nd.(*ast.AssignStmt); ok {
+				visitTyped(as)
+			}
+		}
+		// originRoots: the variables a value derives from on some path, looking through locals, .Load()
+		// of a link and type assertions (`at := pos; if before { at = pos.prev.Load() }`)
+		originRoots := func(a ast.Expr, apt Point) []types.Object {
+			var out []types.Object
+			for _, o := range f.Origins(a, apt) {
+				e := ast.Unparen(o.E)
+				for i := 0; i < 4; i++ {
+					switch x := e.(type) {
+					case *ast.CallExpr:
+						if se, isSel := ast.Unparen(x.Fun).(*ast.SelectorExpr); isSel && se.Sel.Name == "Load" && len(x.Args) == 0 {
+							e = ast.Unparen(se.X)
+							continue
+						}
+					case *ast.TypeAssertExpr:
+						e = ast.Unparen(x.X)
+						continue
+					}
+					break
+				}
+				ro := rootObj(info, e)
+				if ro != nil && strings.Contains(exprKey(e), ".root") && ro.Name() == recvName {
+					ro = nil // the sentinel: always a member
+					out = append(out, sentinelObj)
+					continue
+				}
+				out = append(out, ro)
+			}
+			return out
+		}
 		for _, hp := range handleParams {
 			key := fmt.Sprintf("%s param %s", fkey, hp.Name())
 			tv := typedOf[hp]
@@ -662,6 +714,13 @@ func checkListCore(r *Reporter, p *Prog) {
 				for _, a := range c.Args {
 					if rootObj(info, a) == tv || mentionsObj(info, []ast.Expr{a}, tv) {
 						return true
+					}
+					if apt, okp := f.PointOf(c); okp && rootObj(info, a) != nil {
+						for _, ro := range originRoots(a, apt) {
+							if ro == tv || (ro != nil && ro == hp) {
+								return true
+							}
+						}
 					}
 				}
 				return false
@@ -753,8 +812,18 @@ func checkListCore(r *Reporter, p *Prog) {
 				if ro != nil && paramOfTyped[ro] != nil {
 					okSrc = true
 				}
-				if ro != nil && ro.Name() == recvName && strings.Contains(exprKey(a), ".root") {
-					okSrc = true
+				// a local that holds, on every path, a validated handle or a neighbour reached from one
+				if !okSrc && ro != nil {
+					if apt, okp := f.PointOf(c); okp {
+						roots := originRoots(a, apt)
+						all := len(roots) > 0
+						for _, oro := range roots {
+							if oro == nil || (oro != sentinelObj && paramOfTyped[oro] == nil && typedOf[oro] == nil) {
+								all = false
+							}
+						}
+						okSrc = all
+					}
 				}
 				key := fmt.Sprintf("%s %s arg %d", fkey, spName, i)
 				if okSrc {
@@ -964,9 +1033,23 @@ func findListRoles(p *Prog) *listRoles {
 		}
 		return *e
 	}
+	// a primitive works on typed elements; an unexported function that still takes the interface handle
+	// (a shared body of two exported operations) is an operation, not a primitive
+	takesHandle := func(fn *types.Func) bool {
+		sig, _ := fn.Type().(*types.Signature)
+		if sig == nil {
+			return false
+		}
+		for i := 0; i < sig.Params().Len(); i++ {
+			if shortTypeName(typeName(sig.Params().At(i).Type())) == "ListElement" {
+				return true
+			}
+		}
+		return false
+	}
 	calledByPrim := map[*types.Func]bool{}
 	for fn, ft := range fs {
-		if !effOf(fn, 0).links {
+		if !effOf(fn, 0).links || takesHandle(fn) {
 			continue
 		}
 		out.splice[fn] = true
